@@ -15,6 +15,7 @@ RULE = ('engine histories (C01-C03 generator) on pty/fd transports driven from a
         'Added later: awaited calls abandoned from outside (asyncio.wait_for around the call; a cancellation tie is judged as the '
         'outcome the engine reached), attribute changes between calls, > 1024 descriptors with use_poll. Deliveries of the asyncio '
         'protocol are recorded through the public logfile_read attribute. '
+        'An awaited call never reports TIMEOUT before its time is up (C14.early_timeout). '
         'Non-trivial: >= 1 awaited call that consumed a read; distinct by trace digest')
 
 COMP = dict(COMPONENTS)
